@@ -37,7 +37,7 @@ def evaluate_rows(ctx, res, worst):
     m_res = pm["res"] / lim
     m_gain = abs(pm["gain_db"]) / res["class_db"]
     fl = res.get("flags", {})
-    kr = "residual/2^(1-bits)" + (" [F-PH1 / F-SG2 signature]" if fl.get("F-PH1") or fl.get("F-SG2") else "")
+    kr = "residual/2^(1-bits)" + (" [F-PH1 signature]" if fl.get("F-PH1") else "")
     kg = "gain_error/class" + (" [F-SG1 signature]" if fl.get("F-SG1") else "")
     worst[kr] = max(worst.get(kr, 0), m_res)
     worst[kg] = max(worst.get(kg, 0), m_gain)
@@ -171,7 +171,7 @@ def run(ctx):
         n_fits += 1
         lim, cls, dt_allow = tone_bounds(t, t["cfg"])
         fl = t.get("flags", {})
-        kr = "fit_residual/2^(1-bits)" + (" [F-PH1 / F-SG2 signature]" if fl.get("F-PH1") or fl.get("F-SG2") else "")
+        kr = "fit_residual/2^(1-bits)" + (" [F-PH1 signature]" if fl.get("F-PH1") else "")
         kg = "fit_gain_error/class" + (" [F-SG1 signature]" if fl.get("F-SG1") else "")
         worst[kr] = max(worst.get(kr, 0), t["resid"] / lim)
         worst[kg] = max(worst.get(kg, 0), abs(t["gain_db"]) / cls)
@@ -216,10 +216,6 @@ def run(ctx):
         if "skipped" in t:
             continue
         n_fmt += 1
-        if t["diff"] > t["bound"] and t["diff"] <= t["bound"] + S.sg4_cap(t.get("pclass", ""), t.get("gain_eff", 1.0), t.get("bits", 33)):
-            ctx.known("F-SG4", "%s: datatypes %d -> %d (gain %.3g carried by the poly-phase stage): output differs from the float64 run of the same samples by "
-                               "%.3g of full scale [plan %s, engine %s]" % (t["label"], t["itype"], t["otype"], t["gain_eff"], t["diff"], t["plan"], t["engine"]))
-            continue
         if t["bound"] > 0:
             worst["format_diff/resolution"] = max(worst.get("format_diff/resolution", 0), t["diff"] / t["bound"])
         else:
@@ -247,7 +243,7 @@ def run(ctx):
     ctx.cov["rule"] = ("rows: fixed core of 6 rational configurations (tightest margins of the pinned tree) plus the " + COVER_RULE % (
                        "coprime ratios a:b up to 12, halving chains, large up-sampling and audio rates x 14 recipes (LQ..32-bit, LSR presets, steep) x engine "
                        "(SIMD / portable, SOXR_DOUBLE_PRECISION) x knob in {recipe as is, phase_response 0 / 25 / 75 / 100 by field or recipe flag, "
-                       "stopband_begin < 1, stopband_begin > 1, passband_end, roll-off class, fractional precision 15..33}") +
+                       "stopband_begin < 1, stopband_begin in (1, 1.09) and in (1.09, 1.14), passband_end, roll-off class, fractional precision 15..33}") +
                        "fits: the same covering over irrational / interpolated ratios (interpolation orders 0-3 auto and forced), two tones per member "
                        "(random and in the last 3 % of the pass-band), plus seeded random configurations (hi-prec clock, channels). Thorough: the whole "
                        "product of the old ratio pools as well. distinct_nontrivial = distinct (engine, exported stage plan, roll-off class, precision) "
@@ -265,10 +261,11 @@ def run(ctx):
         "F1 (non-linear phase + power-of-two-L dft stage with L not dividing block_len) is repaired in /repo (279ce1a) and listed as fixed: no configuration is "
         "set aside, non-linear phase with L = 8 .. 256 post stages is measured like everything else (the set-aside / child-process probe path of "
         "checks/_signal.py only returns if an F1 entry is listed as known again)",
+        "F-SG2 and F-SG4 are repaired in /repo (3133031, cd8ddc4; listed as fixed): they suppress nothing",
         "an explicit stopband_begin > 1 admits aliasing / imaging above 2 - stopband_begin: the pass-band the property speaks about is read as "
         "[0, min(passband_end, 2 - stopband_begin)] (for up-sampling _soxr_init enforces passband_end <= 2 - stopband_begin itself); the generator "
         "keeps passband_end below it",
-        "known findings of the pinned tree (known_findings.d/signal.json: F-PH1, F-SG1, F-SG2, F-SG4, F-SG5) are recognised by a configuration/plan signature "
+        "known findings of the pinned tree (known_findings.d/signal.json: F-PH1, F-SG1, F-SG5) are recognised by a configuration/plan signature "
         "AND a symptom bound; their margins are listed separately under worst_margins ([... signature])",
     )
     if broken and not ctx.violations:
